@@ -5,13 +5,16 @@ package nat
 
 import (
 	"bytes"
+	"encoding/binary"
 	"encoding/json"
 	"fmt"
 	"net"
+	"reflect"
 	"strings"
 	"sync"
 	"time"
 
+	"github.com/cilium/ebpf"
 	"go.uber.org/zap"
 
 	bngnat "github.com/codelaboratoryltd/bng/pkg/nat"
@@ -25,6 +28,9 @@ type Config struct {
 	NIPs, NSubs       int
 	LogMode           string // "bulk" (RFC 6908 port-block records) | "plain" (allocate/deallocate records)
 	ByRange           bool   // configure the public addresses with one AddPublicIPRange call instead of one AddPublicIP each
+	// MapCap > 0: the manager writes its allocations into a real kernel hash map (subscriber_nat) that holds only
+	// MapCap entries, so the datapath update of a further subscriber fails until another one is released
+	MapCap int
 }
 
 func (c Config) Name() string {
@@ -32,12 +38,15 @@ func (c Config) Name() string {
 	if c.ByRange {
 		n += "/range"
 	}
+	if c.MapCap > 0 {
+		n += fmt.Sprintf("/map%d", c.MapCap)
+	}
 	return n
 }
 
 func (c Config) Map() map[string]any {
 	return map[string]any{"impl": "nat.Manager", "nsubs": c.NSubs, "nips": c.NIPs, "pstart": c.PStart, "pend": c.PEnd,
-		"pps": c.PPS, "logmode": c.LogMode, "byrange": c.ByRange}
+		"pps": c.PPS, "logmode": c.LogMode, "byrange": c.ByRange, "mapcap": c.MapCap}
 }
 
 // ConfigFromMap rebuilds a Config from the cfg record of a bundle / replay file.
@@ -47,7 +56,7 @@ func ConfigFromMap(m map[string]any) Config {
 		s = "bulk"
 	}
 	return Config{PStart: toInt(m["pstart"]), PEnd: toInt(m["pend"]), PPS: toInt(m["pps"]), NIPs: toInt(m["nips"]),
-		NSubs: toInt(m["nsubs"]), LogMode: s, ByRange: m["byrange"] == true}
+		NSubs: toInt(m["nsubs"]), LogMode: s, ByRange: m["byrange"] == true, MapCap: toInt(m["mapcap"])}
 }
 
 func toInt(v any) int {
@@ -171,6 +180,7 @@ type inst struct {
 	holdLogs  bool
 	flushDone chan struct{}
 	stalled   bool
+	kmap      *ebpf.Map
 }
 
 func (s *System) New() core.Instance {
@@ -197,6 +207,14 @@ func (s *System) New() core.Instance {
 		panic(err)
 	}
 	in := &inst{s: s, m: m, lg: lg, buf: &lockedBuf{}, calls: map[int]*gcall{}}
+	if c.MapCap > 0 {
+		km, err := ebpf.NewMap(&ebpf.MapSpec{Type: ebpf.Hash, KeySize: 4, ValueSize: uint32(binary.Size(bngnat.SubscriberNAT{})), MaxEntries: uint32(c.MapCap)})
+		if err != nil {
+			panic(fmt.Sprintf("cannot create a kernel map (needed by %s): %v", c.Name(), err))
+		}
+		core.Field(m, "subscriberNAT").Set(reflect.ValueOf(km))
+		in.kmap = km
+	}
 	lg.VerifSetWriter(in.buf)
 	m.SetLogger(lg)
 	bngnat.VerifSetGate(m, in.gate)
@@ -459,6 +477,9 @@ func (in *inst) Probe() map[string]any { return nil }
 // Close lets every parked call run to completion (no goroutine is left behind) and drops the gate.
 func (in *inst) Close() {
 	in.closing = true
+	if in.kmap != nil {
+		defer in.kmap.Close()
+	}
 	for _, gc := range in.calls {
 		if gc.finished {
 			continue
